@@ -332,8 +332,17 @@ def eval_cases(cases, profile="debug"):
     return out
 
 
+CURRENT_PID = [None]
+
+
 def is_fail(r):
-    return r["verdict"].startswith("FAIL")
+    """FAIL verdicts may be tagged with property ids ("FAIL:C05:...,C09:..."): a tagged verdict
+    counts for the property being checked only if it names it."""
+    v = r["verdict"]
+    if not v.startswith("FAIL"):
+        return False
+    tags = re.findall(r"\bC\d\d(?=:)", v)
+    return (not tags) or (CURRENT_PID[0] in tags)
 
 
 def is_mismatch(r):
@@ -441,6 +450,7 @@ def write_replay(pid, tier, seed, kind, body):
 
 def check(pid, tier, seed):
     t0 = time.time()
+    CURRENT_PID[0] = pid
     cfg = props.PROPS[pid]
     violations = []   # (replay_path, suffix)
     known_lines = []
@@ -548,7 +558,7 @@ def check(pid, tier, seed):
                     continue
                 mv = run_driver(lines)
                 for l, (m, v) in zip(lines, mv):
-                    if v.startswith("FAIL"):
+                    if is_fail({"verdict": v}):
                         cmd, arg, impl = (l.split("\t") + ["", "", ""])[:3]
                         found = {"cmd": cmd, "arg": arg, "impl": impl, "model": m, "verdict": v, "stream": stream}
                         break
